@@ -1,0 +1,5 @@
+//go:build !verif
+
+package lr1
+
+func verifTrace(from *ItemSet, sym Term, to *ItemSet, isNew, changed bool) {}
